@@ -2505,6 +2505,24 @@ impl StorageEngine {
                     if !expired_keys.is_empty() {
                         let mut shard_guard = shard.write().unwrap();
                         for key in expired_keys {
+                            // The index is only a hint: since it was read the key may have been
+                            // overwritten, persisted, renamed or given a later deadline, so the
+                            // decision is taken again on the stored value under the write lock
+                            match shard_guard.data.get(&key).map(|stored_value| stored_value.is_expired()) {
+                                Some(true) => {}
+                                Some(false) => {
+                                    match shard_guard.data.get(&key).and_then(|v| v.metadata.expires_at) {
+                                        Some(expires_at) => { shard_guard.expiring_keys.insert(key.clone(), expires_at); }
+                                        None => { shard_guard.expiring_keys.remove(&key); }
+                                    }
+                                    continue;
+                                }
+                                None => {
+                                    shard_guard.expiring_keys.remove(&key);
+                                    continue;
+                                }
+                            }
+                            
                             if let Some(stored_value) = shard_guard.data.remove(&key) {
                                 shard_guard.expiring_keys.remove(&key);
                                 
